@@ -49,7 +49,7 @@ where
     words
         .map(|word| {
             let word = word.into();
-            if word_needs_escaping(word) {
+            if word.is_empty() || word_needs_escaping(word) {
                 format!("\"{}\"", quote_value(word))
             } else {
                 word.to_string()
